@@ -26,7 +26,8 @@ PROP = {'title': 'Random wrappers are transparent and stay within the requested 
                     {'name': 'convert_to<uniform_int>', 'source': 'harness/C20_probe_convert_to.cpp', 'flags': ['-DC20_PROBE_KIND=1']},
                     {'name': 'convert_to<uniform_real>', 'source': 'harness/C20_probe_convert_to.cpp', 'flags': ['-DC20_PROBE_KIND=2']},
                     {'name': 'variate<uniform_container>', 'source': 'harness/C20_probe_variate_container.cpp', 'flags': []},
-                    {'name': 'convert_to<normal>', 'source': 'harness/C20_probe_convert_to.cpp', 'flags': ['-DC20_PROBE_KIND=3']}],
+                    {'name': 'convert_to<normal>', 'source': 'harness/C20_probe_convert_to.cpp', 'flags': ['-DC20_PROBE_KIND=3']},
+                    {'name': 'uniform_int<enum>_wraps_std_over_underlying_type', 'source': 'harness/C20_probe_enum_wrapped.cpp', 'flags': []}],
  'deadline': {'quick': 240, 'thorough': 1500},
  'rule': 'nested loops: engines {minstd_rand, mt19937} x result types {short, int, long, long long, unsigned short, unsigned, unsigned '
          'long, strong typedefs of int/short/unsigned long, a nested strong typedef, enums with 5 underlying types, a strong typedef of an '
